@@ -37,14 +37,14 @@ fn default_runs(prop: &str, tier: &str) -> u64 {
     match prop {
         "C08" | "C09" | "C10" => {
             if quick {
-                120_000
+                80_000
             } else {
                 6_000_000
             }
         }
         "C11" => {
             if quick {
-                200_000
+                150_000
             } else {
                 10_000_000
             }
